@@ -241,6 +241,43 @@ def echo_tuples(r):
     return out
 
 
+def dict_tuples():
+    """tuples that carry the tokens of the library's CURRENT source (tools/srcdict.py) in every component, alone and
+    next to each separator — deterministic; a word the code has just learnt is an input of the same run"""
+    import srcdict
+    out = []
+    keyre = re.compile(r"^[a-z][a-z0-9._-]*\Z")
+    algre = re.compile(r"^[a-z0-9][a-z0-9-]*\Z")
+    for t in srcdict.source_tokens():
+        segs = [x for x in t.split("/") if x and x not in (".", "..")]
+        names = [t] + [a + sep + b for sep in (":", "/", "@", ".", "-", "_", "=", "+", " ") for a, b in (("tool", t), (t, "tool"))] + ["org.acme:tool:" + t, "a/b/" + t]
+        for nm in names:
+            out.append(Tuple("t", ["ns"], nm, "1.0", [("k", "v")], ["s"], None))
+        for ty in ("npm", "maven", "pypi", "golang", "nuget", "cargo", "gem"):
+            out.append(Tuple(ty, ["org.acme"], t, "1.0", [], [], None))
+            out.append(Tuple(ty, ["org.acme"], "tool:" + t, "1.0", [], [], None))
+            out.append(Tuple(ty, ["org.acme"], "tool-" + t, t, [], [], None))
+            if segs:
+                out.append(Tuple(ty, segs, "tool", "1.0", [], list(segs), None))
+                out.append(Tuple(ty, ["a"] + segs, t, None, [], ["x"] + segs + ["y"], None))
+        if segs:
+            out.append(Tuple("t", segs, "name", "1.0", [], [], None))
+            out.append(Tuple("t", ["a"] + segs + ["b"], "name", "1.0", [], ["s"], None))
+            out.append(Tuple("t", ["ns"], "name", "1.0", [], segs, None))
+            out.append(Tuple("t", ["ns"], "name", "1.0", [], ["a"] + segs + ["b"], None))
+        for ver in [t] + ["1" + sep + t for sep in ("-", "+", ".", "@", "/", ":", "~")] + [t + "1.0"]:
+            out.append(Tuple("t", ["ns"], "name", ver, [], [], None))
+        for k_ in ("k", "repository_url", "download_url", "vcs_url", "file_name", "type", "classifier", "arch", "ext"):
+            out.append(Tuple("t", [], "name", "1.0", [(k_, t)], [], None))
+            out.append(Tuple("maven", ["g"], "a", "1.0", [(k_, "x" + t + "y"), ("zz", t)], [], None))
+        if keyre.match(t.lower()) and t.lower() not in ("checksum", "zz9"):
+            out.append(Tuple("t", [], "name", "1.0", [("zz9", "1"), (t.lower(), "v")], [], None))
+            out.append(Tuple("npm", [], "name", None, [(t.lower(), t)], [], None))
+        if algre.match(t.lower()):
+            out.append(Tuple("t", [], "name", "1.0", [("checksum", None)], [], [(t.lower(), "00ff"), ("sha1", "ab")] if t.lower() != "sha1" else [("sha1", "ab")]))
+    return out
+
+
 def st_classes(ctx, shapes, label="classes"):
     """parse requests: legal spellings of tuples drawn from the product of component classes (realistic values:
     npm scopes, URLs with compound schemes, versions with '/', '+', '@', literal escapes, non-ASCII cased letters,
@@ -248,7 +285,7 @@ def st_classes(ctx, shapes, label="classes"):
     r = ctx.rng(label)
     out = []
     gid = 0
-    tuples = [cls_tuple(r, idx, None) for idx in cls_indices(ctx, r)] + echo_tuples(r)
+    tuples = [cls_tuple(r, idx, None) for idx in cls_indices(ctx, r)] + echo_tuples(r) + dict_tuples()
     for t in tuples:
         sh = r.pick(shapes)
         gid += 1
@@ -269,7 +306,7 @@ def st_classes_build(ctx, shapes, label="classes-build"):
     """the same product through the builder (values given un-normalised: extra / doubled / tripled slashes, dot pieces)"""
     r = ctx.rng(label)
     out = []
-    tuples = [cls_tuple(r, idx, None) for idx in cls_indices(ctx, r)] + echo_tuples(r)
+    tuples = [cls_tuple(r, idx, None) for idx in cls_indices(ctx, r)] + echo_tuples(r) + dict_tuples()
     for t in tuples:
         sh = r.pick(shapes)
         tyl = t.ty.lower()
@@ -601,6 +638,13 @@ def st_quals(ctx, n, label="quals", maxsteps=8, documented_panics=False):
         steps = ["ins:%s:%s" % (hx(k_), hx(k_[1:])) for k_ in ks] + ["len", "get:" + hx("K050"), "rm:" + hx("k049"), "rm:" + hx("k000"), "rm:" + hx("k099"), "len",
                                                                    "ent:%s:oi:%s" % (hx("k050x"), hx("v")), "eqf", "retlt:" + hx("k020"), "len", "iter", "eqf"]
         out.append(case("quals " + ";".join(steps), "quals-many"))
+    # the words of the library's current source as keys and as values, beside ordinary ones
+    import srcdict
+    for t in srcdict.source_tokens():
+        for k_, v_ in ((t, "v"), ("k", t), (t, t), (t.upper(), "x" + t), ("zz-" + t, t + "!")):
+            steps = ["ins:%s:%s" % (hx("a"), hx("1")), "ins:%s:%s" % (hx(k_), hx(v_)), "ins:%s:%s" % (hx("zzzz"), hx("2")), "get:" + hx(k_), "get:" + hx(k_.lower()), "has:" + hx(k_.upper()),
+                     "iter", "eqf", "ent:%s:oi:%s" % (hx(k_), hx("w")), "len", "rm:" + hx(k_), "iter", "tfi:%s:%s:%s:%s" % (hx(k_), hx(v_), hx("b"), hx(t)), "iter", "eqf"]
+            out.append(case("quals " + ";".join(steps), "quals-many"))
     for _ in range(n):
         steps = [rand_quals_step(r) for _ in range(1 + r.below(maxsteps))]
         if r.chance(1, 4):
@@ -872,6 +916,11 @@ def st_comb(ctx, n, label="comb"):
                 for pre in ("tool", "org.acme:tool", "org.acme/tool", "@scope/tool", "g:a:b"):
                     s = pre + sep + w_
                     out.append(case("comb %s %s" % (ident, hx(s)), "comb-words", ident=ident, s=s))
+    import srcdict
+    for ident in IDENTS:
+        for t in srcdict.source_tokens():
+            for s in (t, "g:" + t, "a/" + t, t + "/a", "g:a:" + t, t + ":a", "@s/" + t, "a:b/" + t):
+                out.append(case("comb %s %s" % (ident, hx(s)), "comb-words", ident=ident, s=s))
     return out
 
 
@@ -979,6 +1028,9 @@ def cksum_texts(ctx):
             "md5:1B2M2Y8AsgTpgAmY7PhCfg==", "sha256-47DEQpj8HBSa+/TImW+5JCeuQeRkm5NMpJWZG3hSuFU=", "sha1:3I42H3S6NNFQ2MSVX7XZKYAYSCX5QBYJ", "sha256:00,sha1:2jmj7l5rSw0yVb/vlWAYkK/YBwk="]
     # algorithm names that only differ in how their numbers are written (a "natural" order would tie or reorder them)
     out += ["sha01-1:aa,sha1-01:bb", "sha1-01:bb,sha01-1:aa", "a1:00,a01:11,a001:22", "sha2:00,sha10:11", "sha10:11,sha2:00", "v1.10:00,v1.9:11,v1.09:22"] * 4
+    import srcdict
+    for t in srcdict.source_tokens():
+        out += [t + ":00ff", "sha1:" + t, "sha1:00," + t + ":ab", t + "=00ff", "sha1:ab" + t, t + "sha1:ab"]
     out += ["sha512:" + "ab" * n_ for n_ in (20, 32, 64, 65, 128, 129, 256)] + ["sha1:" + "AB" * 64 + ",md5:" + "0f" * 16]
     out += ["sha1:+aFF", "sha1:0x1F", "sha1:0x", "sha1:0X1f", "sha256:0xdeadbeef", "md5:00ff,sha1:0XAB", "sha1:1e", "sha1:١٢", "sha1:ａｂ", "a:00,b", "a:00,,b:11", "a::00", ":00", "a:", ","]
     if ctx.tier == "thorough":
